@@ -25,7 +25,7 @@ type KV struct {
 }
 
 type Case struct {
-	Kind  string `json:"kind"` // match | site | print | parse
+	Kind  string `json:"kind"` // match | site | sil | print | parse
 	Show  string `json:"show,omitempty"`
 	MSS   [][]M  `json:"mss,omitempty"`   // match
 	LS    []KV   `json:"ls,omitempty"`    // match, site
@@ -59,6 +59,8 @@ func TestCheck(t *testing.T) {
 			runMatch(run, c)
 		case "site":
 			runSite(run, c)
+		case "sil":
+			runSil(run, c)
 		case "print":
 			runPrint(run, c)
 		case "parse":
@@ -75,6 +77,7 @@ func TestCheck(t *testing.T) {
 
 const rule = "match: 1-3 matcher lists x label sets over small name/value/pattern alphabets, regexp oracle anchored by the harness; " +
 	"site: one matcher through NewMatcher / Matchers / route (matchers, match, match_re, JSON config) / silence compile / inhibit rule (source, target, legacy maps) / API filter / v1 JSON; " +
+	"sil: 1-3 matcher sets stored as a silence in a real silence.Silences and asked back through Query(QState(active), QMatches(labels)), Silencer.Mutes and (single list) the API filter, on label sets that lack some matched labels or carry them empty, all four operators, regexps that match the empty string; " +
 	"print: matcher lists over an alphabet rich in quotes, backslashes, newlines, braces, commas, operators, blanks, NUL, multi-byte and invalid UTF-8 -> String() -> every parser; " +
 	"list stress: 2-4 matcher lists whose non-last values end in one or two backslashes or carry a quote / escaped quote / escaped backslash right before the separating comma, printed then parsed in every mode, plus raw lists of the same shapes (histogram classic_split_stress); " +
 	"parse: raw inputs (grammar-directed + mutated seeds) through labels.ParseMatcher(s), parse.Matcher(s), compat.Matcher(s) in classic/utf8-strict/fallback mode; " +
